@@ -47,6 +47,8 @@ func (m *model) apply(c *config, op int) {
 		for k := range m.stored {
 			m.stored[k] >>= nOff
 		}
+	case c.isFaultPut(op):
+		// a Put that fails stores nothing
 	default:
 		m.stored[op/c.nLoc()] |= 1 << (op % c.nLoc())
 	}
@@ -144,6 +146,26 @@ func step(in *instance, m *model, op int, before []getRes) (out stepOut) {
 			}
 		}
 	}()
+	if c.isFaultPut(op) {
+		// The device fails the first record read of this Put: nothing is known about the slot, so nothing may
+		// be stored over it; the call fails and every lookup stays what it was.
+		kind = "putF"
+		err := in.apply(op)
+		after := in.getAll()
+		out.after = after
+		modelDone = true
+		if err == nil {
+			out.viols = append(out.viols, viol{"put:device-read-error-swallowed", fmt.Sprintf("%s returned nil although the record array's device failed the read; lookups before: %s; lookups after: %s", c.opName(op), visString(c, before), visString(c, after))})
+		}
+		for k := range after {
+			if !sameObs(before[k], after[k]) {
+				out.viols = append(out.viols, viol{"put:failed-put-changed-lookup", fmt.Sprintf("%s (device read error) changed the lookup of %s; lookups before: %s; lookups after: %s", c.opName(op), c.Keys[k], visString(c, before), visString(c, after))})
+			}
+		}
+		out.outcome = "putF:error=" + fmt.Sprint(err != nil)
+		out.nontrivial = true
+		return out
+	}
 	c0 := in.h.read()
 	err := in.apply(op)
 	c1 := in.h.read()
